@@ -57,6 +57,8 @@ func runC09(c *Check) {
 	}, true, c09GuardExceptions)
 	c.Floor("C09-R2", 120)
 	c.discardedErrDeref()
+	c.lockRelease()
+	c.divisionGuards()
 	c.errorsContinue()
 	c.constantPatterns()
 }
@@ -739,3 +741,76 @@ func evalStringExpr(pk *packages.Package, e ast.Expr, depth int) (string, bool) 
 	}
 	return "", false
 }
+
+// lockRelease (R6): "never hangs": every mutex taken without a deferred unlock is released
+// on every path to a return.
+func (c *Check) lockRelease() {
+	p := c.P
+	n := 0
+	var fns []*ssa.Function
+	for f := range p.AllFns {
+		if fnInModule(f) && f.Blocks != nil {
+			fns = append(fns, f)
+		}
+	}
+	sortFns(fns)
+	for _, f := range fns {
+		lcs := lockCalls(f)
+		if len(lcs) == 0 {
+			continue
+		}
+		n++
+		leaks := lockLeaks(f)
+		if len(leaks) == 0 {
+			c.ok("C09-R6", "release:"+fnName(f), p.relFile(f.Pos()), fnName(f)+" releases every mutex it takes", "deferred Unlock, or an Unlock on every path from Lock to return")
+			continue
+		}
+		for _, lk := range leaks {
+			c.bad("C09-R6", "release:"+fnName(f)+":"+lk.id, p.relFile(lk.ins.Pos()), fnName(f)+" can return with "+lk.id+" still locked: the session hangs at the next use of that mutex")
+		}
+	}
+	if n < 6 {
+		c.undecided("C09-R6", "release:count", "", "fewer locking functions than expected")
+	}
+}
+
+// divisionGuards (R7): integer division by a value that is not a constant is guarded by a
+// comparison of the divisor with zero.
+func (c *Check) divisionGuards() {
+	p := c.P
+	g := newGuardEngine(p)
+	var fns []*ssa.Function
+	for f := range p.AllFns {
+		pk := fnPkgPath(f)
+		if fnInModule(f) && f.Blocks != nil && f.Synthetic == "" && pk != modPath+"/profile" && !strings.Contains(pk, "proftest") && !strings.Contains(pk, "third_party") && !strings.Contains(p.Fset.Position(f.Pos()).Filename, "/testdata/") {
+			fns = append(fns, f)
+		}
+	}
+	sortFns(fns)
+	for _, f := range fns {
+		for _, b := range f.Blocks {
+			for _, ins := range b.Instrs {
+				bo, ok := ins.(*ssa.BinOp)
+				if !ok || (bo.Op != token.QUO && bo.Op != token.REM) {
+					continue
+				}
+				if bt, ok := bo.X.Type().Underlying().(*types.Basic); !ok || bt.Info()&types.IsInteger == 0 {
+					continue
+				}
+				if _, isConst := bo.Y.(*ssa.Const); isConst {
+					continue
+				}
+				key := "div:" + fnName(f) + ":" + describeValue(bo.Y)
+				if nonZeroGuard(g, f, bo) {
+					c.ok("C09-R7", key, p.relFile(bo.Pos()), "integer division in "+fnName(f), "the divisor is compared with 0 on a dominating branch")
+				} else if why, ok := c09DivExceptions[key]; ok {
+					c.ok("C09-R7", key, p.relFile(bo.Pos()), "integer division in "+fnName(f), "reviewed invariant: "+why)
+				} else {
+					c.bad("C09-R7", key, p.relFile(bo.Pos()), "integer division in "+fnName(f)+" by "+describeValue(bo.Y)+" without a zero test: a zero divisor panics")
+				}
+			}
+		}
+	}
+}
+
+var c09DivExceptions = map[string]string{}
